@@ -166,13 +166,13 @@ VOL_Q = [("cell_volume", [""]), ("cell_barycenter", [""]), ("mean_cell_volume", 
 TRI_ONLY = {"face_circumcenter", "cotangent", "cotan_weights", "angle_defects"}
 
 
-def _history(rng, tri, volume, n):
+def _history(rng, tri, volume, n, still=False):
     qs = VOL_Q if volume else [q for q in SURF_Q if tri or q[0] not in TRI_ONLY]
     evs = []
     doubles = 0
     for _ in range(n):
         r = rng.random()
-        if r < 0.12:
+        if r < 0.12 and not still:          # a third of the histories never move the mesh: whatever they store can never be stale
             sc = rng.choice([1, 1, 2]) if doubles < 2 else 1      # keep coordinates small: the specification searches integer square roots
             doubles += (sc == 2)
             evs.append({"op": "transform", "mi": rng.randint(1, 6), "s": sc, "t": [rng.randint(-2, 2) for _ in range(3)]})
@@ -199,6 +199,11 @@ def run(ctx):
     shapes.append(("B-open", cubeP, cubeT[:10], []))
     shapes.append(("B-quads", cubeP, [[0, 3, 2, 1], [0, 1, 5, 4], [1, 2, 6, 5], [2, 3, 7, 6], [3, 0, 4, 7], [4, 5, 6, 7]], []))
     shapes.append(("generic-tri", [[0, 0, 0], [3, 1, 0], [1, 2, 2], [4, 3, 1]], [[0, 1, 2], [1, 3, 2]], []))
+    cuboidP = [[x * (p[0] // 2), y * (p[1] // 2), z * (p[2] // 2)] for p in cubeP for (x, y, z) in [(1, 2, 3)]]
+    shapes.append(("B-cuboid", cuboidP, cubeT, []))             # faces of three different areas: weighted sums really depend on the weights
+    shapes.append(("B-cuboid-open", cuboidP, cubeT[:10], []))
+    Psh, Fsh = c09._grid_surface(3, 3, 1, 1, True)
+    shapes.append(("P-sheared", [[x + 2 * y, y, 0] for x, y, _ in Psh], Fsh, []))          # obtuse corners: negative cotangents
     for dims in ((1, 1, 1), (2, 1, 1)):
         Pk, Ck = c03.kuhn(rng, *dims)
         shapes.append(("K", Pk, [], Ck))
@@ -222,7 +227,19 @@ def run(ctx):
             C2 = [[perm[v] for v in c] for c in C]
             tri = bool(F2) and all(len(f) == 3 for f in F2)
             cases.append({"id": "%s-%d-%d" % (name, len(cases), rep), "given": {"P": P3, "F0": F2, "C0": C2, "family": name},
-                          "events": _history(rng, tri, bool(C2), nev)})
+                          "events": _history(rng, tri, bool(C2), nev, still=(rep % 3 == 2))})
+    # systematic histories without any move: every quantity twice in a row with its result stored on the mesh, then every quantity once more -
+    # whatever a call leaves on the mesh must not change a later answer
+    for name, P, F, C in shapes:
+        tri = bool(F) and all(len(f) == 3 for f in F)
+        qs = VOL_Q if C else [q for q in SURF_Q if tri or q[0] not in TRI_ONLY]
+        evs = []
+        for qn, modes in qs:
+            for md in modes:
+                evs += [{"op": "quantity", "name": qn, "mode": md, "zb": 0, "persistent": 1, "dense": 1}] * 2
+        for qn, modes in qs:
+            evs.append({"op": "quantity", "name": qn, "mode": modes[-1], "zb": 1, "persistent": 0, "dense": 0})
+        cases.append({"id": "%s-%d-stored-twice" % (name, len(cases)), "given": {"P": P, "F0": F, "C0": C, "family": name}, "events": evs})
     obs = ctx.execute("c07", "exec_case", cases, chunksize=2)
     ctx.judge("C07_Trace", "C07_Trace.cfg", obs, "quantities-on-lattices", "c07", "exec_case", batch_events=120)
     ctx.exhaustive = False
